@@ -14,9 +14,15 @@ A program (the *case*) is a JSON value:
         | {'k': 'run', 'p': PROGRAM, 'bare': bool}   run PROGRAM  |  % ...  |  $ ...  (the instructions `%` and `$`)
         | {'k': 'dir', 's': FILES-SOURCE}            dir uK = FILES-SOURCE
         | {'k': 'env', 's': TEXT-SOURCE}             env C08_uK = TEXT-SOURCE
+        | {'k': 'env', 's': TEXT-SOURCE, 'name': STR}   env "C08_STR" = TEXT-SOURCE   (NAME is a STRING)
         | {'k': 'stdin', 's': TEXT-SOURCE}           stdin = TEXT-SOURCE      (setup only)
         | {'k': 'timeout', 'i': STR}                 timeout = INTEGER
         | {'k': 'assert', 't': LOGIC-TYPE, 'e': EXPR}   (assert phase only; wrapped so that it always passes)
+        | {'k': 'fileat', 'p': PATH, 's': TEXT-SOURCE}   file PATH/uK.txt = TEXT-SOURCE   (PATH argument of an instruction)
+        | {'k': 'dirat', 'p': PATH}                      dir PATH/uK
+        | {'k': 'nexists', 'p': PATH}                    exists ! PATH/uK              (assert phase only)
+        | {'k': 'from', 'ch': 'exit-code'|'stdout', 'p': PROGRAM}   exit-code -from PROGRAM >= 0 | stdout -from PROGRAM
+                                                         ! equals "<never>"            (assert phase only)
 
   STR   = {'q': 'n'|'s'|'h'|'t'|'d', 'f': [text | {'ref': NAME} ...]}   naked / soft quoted / hard quoted token /
           `:> TEXT-UNTIL-END-OF-LINE` / here-document (RICH-STRING positions only; literal '\n' pieces separate lines)
@@ -26,6 +32,7 @@ A program (the *case*) is a JSON value:
         | {'op': 'and'|'or'|'seq', 'a': EXPR, 'b': EXPR} | {'c': COMPOSITE, ...}     (per type, see _expr_refs)
   TEXT-SOURCE = {'c': 'str', 's': STR, 't': TT-EXPR|None} | {'ref': NAME, 't': TT-EXPR|None}
           | {'c': 'pgm', 'p': PROGRAM, 't': None}                      -stdout-from PROGRAM
+          | {'c': 'contents-of', 'p': PATH, 't': TT-EXPR|None}         -contents-of PATH  (default relativity: home)
   PROGRAM = {'c': 'probe', 'o': PROBE-NAME, 'a': LIST, 'in': TEXT-SOURCE|None, 't': TT-EXPR|None}
           | {'c': 'symref', 'ref': NAME, 'a': LIST, 'in': ..., 't': ...}
           | {'c': 'shell', 'o': OUT-NAME, 's': STR, 'a': [], 'in': ..., 't': ...}   $ printf '%s|' "STR" >> OUT
@@ -74,8 +81,9 @@ ACCEPT = {
     'pathcomp': frozenset(['string']),  # any other reference inside the FILE-NAME of a PATH
     'int': frozenset(['string']),  # INTEGER
     'fname': frozenset(['string']),  # FILE-NAME inside a FILES-SOURCE / FILES-CONDITION literal
+    'envname': frozenset(['string']),  # NAME of `env NAME = VALUE` ("NAME: STRING")
 }
-STRICT_CONTEXTS = ['pathpfx', 'pathcomp', 'int', 'fname']
+STRICT_CONTEXTS = ['pathpfx', 'pathcomp', 'int', 'fname', 'envname']
 DEFAULT_READING = {c: 'strict' for c in STRICT_CONTEXTS}
 
 
@@ -172,7 +180,9 @@ def _ts_refs(ts):
     out = []
     if ts.get('c') == 'pgm':
         return _program_refs(ts['p'])
-    if 'ref' in ts:
+    if ts.get('c') == 'contents-of':
+        out.extend(_path_refs(ts['p']))
+    elif 'ref' in ts:
         out.append((ts['ref'], 'ts'))
     else:
         s = ts['s']
@@ -281,6 +291,19 @@ def _expr_refs(t, e):
     raise ValueError('unknown expression %r of type %s' % (e, t))
 
 
+def with_leaf(p, leaf):
+    """The PATH argument of a `fileat` / `dirat` / `nexists` item: the item's own file name is the last component
+    (literal text appended to the FILE-NAME).  The references of the path are those of p."""
+    name = p['name']
+    return {'rel': p['rel'], 'name': {'q': name['q'], 'f': list(name['f']) + ['/' + leaf]}}
+
+
+# `help setup file`, `help setup dir`, `help assert exists`: "Accepted relativities"; what a path symbol with another
+# relativity means there is not said
+ACCEPTED_ROOTS = {'fileat': frozenset(['act', 'tmp', 'cd']), 'dirat': frozenset(['act', 'tmp', 'cd']),
+                  'nexists': frozenset(['home', 'act-home', 'act', 'tmp', 'cd'])}
+
+
 def value_refs(t, v):
     if t == 'string':
         return _str_refs(v, 'str')
@@ -295,16 +318,22 @@ def item_refs(item):
     k = item['k']
     if k == 'def':
         return value_refs(item['t'], item['v'])
+    if k == 'env' and item.get('name') is not None:
+        return _str_refs(item['name'], 'envname') + _ts_refs(item['s'])
     if k in ('file', 'env', 'stdin'):
         return _ts_refs(item['s'])
     if k == 'timeout':
         return _str_refs(item['i'], 'int')
-    if k == 'run':
+    if k in ('run', 'from'):
         return _program_refs(item['p'])
     if k == 'dir':
         return _fs_refs(item['s'])
     if k == 'assert':
         return _expr_refs(item['t'], item['e'])
+    if k == 'fileat':
+        return _path_refs(item['p']) + _ts_refs(item['s'])
+    if k in ('dirat', 'nexists'):
+        return _path_refs(item['p'])
     raise ValueError('unknown item kind %r' % (k,))
 
 
@@ -358,7 +387,7 @@ def usages(case):
 # validation: one growing table, execution order
 # --------------------------------------------------------------------------------------------------
 class Entry:
-    __slots__ = ('type', 'refs', 'phase', 'builtin', 'value', 'reach')
+    __slots__ = ('type', 'refs', 'phase', 'builtin', 'value', 'reach', 'root')
 
     def __init__(self, type_, refs, phase, builtin=False):
         self.type = type_
@@ -367,6 +396,7 @@ class Entry:
         self.builtin = builtin
         self.value = None
         self.reach = frozenset()  # names of the probes / shell outputs that using the value can run
+        self.root = None  # path symbols: the RELATIVITY the path was defined with (transitively) | 'abs'
 
 
 def _accepts(ctx, reading):
@@ -487,6 +517,11 @@ class Outcome:
         self.shell = {}  # shell output name -> text | UNKNOWN  (what the `$ printf` lines have appended)
         self.unknown_probes = set()  # probes / shell outputs whose number of invocations the manual does not fix
         self.soft = []  # value dependent validation that is not about symbols (INTEGER not an int, invalid REGEX, ...)
+        self.table = {}  # name -> Entry (with .value for the data types) after the last instruction
+        self.abs_files = {}  # absolute path -> text | UNKNOWN   (`file PATH = ...` with a PATH argument)
+        self.sources = {}  # path relative to the home directory -> text: the files read by -contents-of
+        self.unknown_env = False  # a variable whose name is not predicted was set
+        self.abs_dirs = []  # absolute paths of the directories made by `dir PATH`
 
 
 def use_name(phase, idx) -> str:
@@ -530,6 +565,13 @@ def replace_lines(regex, replacement, text):
         return ''.join(pat.sub(replacement, line) for line in lines)
     except (re.error, IndexError):
         return UNKNOWN  # invalid REGEX / STRING: validated by value (see soft_scan)
+
+
+def source_file_text(rel: str) -> str:
+    return 'Data of %s\nsecond line\n' % rel
+
+
+RESERVED_HOME_FILES = ('t.case', 'exactly.suite', 'd1', 'inc1.xly', 'inc2.xly')
 
 
 class _Evaluator:
@@ -580,7 +622,9 @@ class _Evaluator:
                 out.append(v)
         return out
 
-    def path_(self, p):
+    def path_(self, p, default='cd'):
+        """default: the default relativity of the argument (`def path`, `file`, `dir`, `exists`: current directory;
+        SOURCE-FILE-PATH of -contents-of: home directory)"""
         kind, frags = path_shape(p)
 
         def concat(frs):
@@ -620,7 +664,21 @@ class _Evaluator:
             return UNKNOWN
         if name.startswith('/'):
             return str(PurePosixPath(name))
-        return _join(self.roots['cd'], name)  # default relativity of `def path`: current directory
+        return _join(self.roots[default], name)
+
+    def root_(self, p, default='cd'):
+        """The relativity of a path: option name | 'abs' | None (unknown)"""
+        kind, frags = path_shape(p)
+        if kind == 'rel-sym':
+            return self.table[p['rel']['ref']].root
+        if kind == 'rel-opt':
+            return p['rel']
+        if kind in ('pfx', 'odd-pfx') and self.table[frags[0][1]].type == 'path':
+            return self.table[frags[0][1]].root
+        name = self.str_(p['name'])
+        if name is UNKNOWN:
+            return None
+        return 'abs' if name.startswith('/') else default
 
     # ---- logic types with a modelled value ----
     # Values that can run programs are kept as expressions and evaluated where they are *used* (a symbol is a named
@@ -684,10 +742,26 @@ class _Evaluator:
                 text = UNKNOWN
         return text
 
+    def source_(self, p):
+        """-contents-of PATH: "The contents of an existing regular file": the harness makes the files that are inside
+        the home directory (their contents: source_file_text); for any other file the outcome is not predicted"""
+        where = self.path_(p, default='home')
+        home = self.roots['home']
+        if (where is UNKNOWN or self.root_(p, default='home') not in ('home', 'act-home')
+                or not where.startswith(home + '/')):
+            if 'source-file' not in self.out.soft:
+                self.out.soft.append('source-file')
+            return UNKNOWN
+        rel = where[len(home) + 1:]
+        self.out.sources[rel] = source_file_text(rel)
+        return self.out.sources[rel]
+
     def ts_(self, ts):
         """Evaluates (= executes what it takes to produce) a text source -> text | UNKNOWN"""
         if ts.get('c') == 'pgm':
             base = self.run_program(self.program_(ts['p']), consume=True)
+        elif ts.get('c') == 'contents-of':
+            base = self.source_(ts['p'])
         else:
             name = None
             if 'ref' in ts:
@@ -800,6 +874,8 @@ class _Evaluator:
         if t == 'text-source':
             if e.get('c') == 'pgm':
                 self.soft_scan('program', e['p'])
+            if e.get('c') == 'contents-of':
+                self.source_(e['p'])  # the file has to exist also when the text is never used
             if e.get('t') is not None:
                 self.soft_scan('text-transformer', e['t'])
             return
@@ -877,7 +953,7 @@ def _item_expr(item):
     k = item['k']
     if k == 'assert':
         return item['t'], item['e']
-    if k == 'run':
+    if k in ('run', 'from'):
         return 'program', item['p']
     return _ITEM_TYPE[k], item['s']
 
@@ -896,6 +972,10 @@ def evaluate(case, roots, reading=None) -> Outcome:
     table['EXACTLY_HOME'].value = roots['home']
     table['EXACTLY_RESULT'].value = roots['result']
     table['EXACTLY_TMP'].value = roots['tmp']
+    for n_, r_ in (('EXACTLY_ACT', 'act'), ('EXACTLY_ACT_HOME', 'act-home'), ('EXACTLY_HOME', 'home'),
+                   ('EXACTLY_RESULT', 'result'), ('EXACTLY_TMP', 'tmp')):
+        table[n_].root = r_
+    out.table = table
     ev = _Evaluator(table, roots, out)
     act_stdin = []  # texts given by `stdin = TEXT-SOURCE` in setup
 
@@ -913,6 +993,19 @@ def evaluate(case, roots, reading=None) -> Outcome:
         if k == 'timeout':
             ev.soft_int(item['i'])
             continue
+        if k in ('fileat', 'dirat', 'nexists'):
+            full = with_leaf(item['p'], use_name(phase, idx) + ('.txt' if k == 'fileat' else ''))
+            if ev.root_(full) not in ACCEPTED_ROOTS[k]:
+                out.soft.append('path-relativity')
+            where = ev.path_(full)
+            if k == 'fileat':
+                ev.soft_scan('text-source', item['s'])
+                text = ev.ts_(item['s'])
+                if where is not UNKNOWN:
+                    out.abs_files[where] = text
+            elif k == 'dirat' and where is not UNKNOWN:
+                out.abs_dirs.append(where)
+            continue
         if k != 'def':
             ev.soft_scan(*_item_expr(item))
         if k == 'def':
@@ -926,6 +1019,7 @@ def evaluate(case, roots, reading=None) -> Outcome:
                 ent.value = ev.list_(v)
             elif t == 'path':
                 ent.value = ev.path_(v)
+                ent.root = ev.root_(v)
             elif t in ('text-source', 'files-source'):
                 ent.value = v  # evaluated where it is used
             elif t == 'text-transformer':
@@ -942,11 +1036,19 @@ def evaluate(case, roots, reading=None) -> Outcome:
             out.dirs[use_name(phase, idx)] = ev.fs_(item['s'])
         elif k == 'run':
             ev.run_program(ev.program_(item['p']))
+        elif k == 'from':
+            # the exit code / the output of the program is what the matcher is applied to: the program runs once
+            ev.run_program(ev.program_(item['p']), consume=item['ch'] == 'stdout')
         elif k == 'env':
             # "If TEXT-SOURCE involves a PROGRAM, it will be executed in an environment with the environment variables
             # of the specified phase" - without PHASE-SPEC there are two of them: how often it runs is C11's matter
             out.unknown_probes.update(ev.reach(item['s']))
-            ev.env[ENV_PREFIX + use_name(phase, idx)] = ev.ts_(item['s'])
+            var = use_name(phase, idx) if item.get('name') is None else ev.str_(item['name'])
+            text = ev.ts_(item['s'])
+            if var is UNKNOWN:
+                out.unknown_env = True  # some C08_ variable with an unknown name
+            else:
+                ev.env[ENV_PREFIX + var] = text
         elif k == 'stdin':
             # when the text is produced (at the instruction, or when the action to check starts) is not said
             out.unknown_probes.update(ev.reach(item['s']))
@@ -958,4 +1060,40 @@ def evaluate(case, roots, reading=None) -> Outcome:
             finally:
                 out.events, out.shell = saved
         # 'assert' items are wrapped in `constant true || ...`: "Operands are evaluated lazily" - nothing runs
+    for rel in out.sources:
+        parts = rel.split('/')
+        if (any(o != rel and o.startswith(rel + '/') for o in out.sources) or parts[0] in RESERVED_HOME_FILES
+                or rel != str(PurePosixPath(rel))):
+            out.soft.append('source-file')  # cannot be made a regular file by the harness
     return out
+
+
+# --------------------------------------------------------------------------------------------------
+# `exactly symbol FILE [NAME [--ref]]`: "Reports all user defined symbols in the case ... Each symbol is reported on a
+# separate line, together with its type and the number of references to it"
+# --------------------------------------------------------------------------------------------------
+def definitions(case):
+    """-> [(type, name, phase)] of every definition, in execution order"""
+    return [(it['t'], it['n'], ph) for ph, _idx, it in usages(case) if it is not None and it['k'] == 'def']
+
+
+def reference_counts(case) -> dict:
+    """name -> number of references to it (every occurrence in every instruction and in the act phase)"""
+    cnt = {}
+    for ph, _idx, it in usages(case):
+        refs = _program_refs(case['act']) if ph == 'act' else item_refs(it)
+        for name, _ctx in refs:
+            cnt[name] = cnt.get(name, 0) + 1
+    return cnt
+
+
+def path_free(name, table, seen=None) -> bool:
+    """The value of the (data) symbol is built without any path (whose presentation depends on directories)."""
+    seen = seen if seen is not None else set()
+    if name in seen:
+        return True
+    seen.add(name)
+    e = table[name]
+    if e.type == 'path':
+        return False
+    return all(path_free(r, table, seen) for r in e.refs if r in table)
